@@ -81,7 +81,7 @@ func runCLI(c *fw.Ctx, args ...string) cliResult { return runCLIAs(c, 0, args...
 // then equals T0): it waits for the first 300 ms of a second and retries when the second
 // changed across the call. prep (may be nil) restores the fixture before every attempt.
 func runCLIStable(c *fw.Ctx, prep func(), args ...string) (cliResult, bool) {
-	for try := 0; try < 6; try++ {
+	for try := 0; try < 10; try++ {
 		if prep != nil {
 			prep()
 		}
